@@ -1,4 +1,4 @@
-import PyYetiVerif.Model.Bulk
+import PyYetiVerif.Model.BulkGrid
 /-! Line protocol for C13 (text travels as lowercase hex of its ASCII bytes; a file is its
 lines joined by `0a`).
 
@@ -11,6 +11,16 @@ lines joined by `0a`).
   dmig <hexname> <single 0|1> <mtype> <nr> <nc> rowids(2·nr) colids(2·nc) entries(2·nr·nc, row major re im) → hex text
   rdcards <hexname> <hextext>   → cards `;`-separated, fields `,`-separated: i<n> f<m>e<e> s<hex> b
   rdspoints|rdcsupers|rdextrn|rdsets|rddmig <hextext>,  rdtabled1 <hexname> <hextext>
+      rddmig → name|form|mtype|rows|cols|frame  (frame: rows `/`-separated, entries `re@im`)
+  vecw  <arg>…                  → hex text of the rows (`" ".join`) | error:ValueError | error:IndexError
+      <arg> = s <int>  |  v <k> <int>×k
+  grids <wide 0|1> I <arg> C <arg> X <m> (hx hy hz)×m D <arg> P <oarg> S <oarg>   → hex text | error:…
+      <oarg> like <arg> with `-` for the empty string
+  cords <n> (hexname cid ref hexfield×9)×n      → hex text
+  uset  <n> (cord)×n I <arg> X <m> (hx hy hz)×m D <arg>   → hex text | error:…
+  rdgrids <hextext>             → none | error:IndexError | rows `;`-separated
+  rdcord2 <hextext>             → error | rows `;`-separated (twelve numbers each)
+  rdcardsk <hextext>            → cards of `rdcards(f, r"(cord2[rcs])\b", regex, keep_name, list)`
 -/
 open PyYetiVerif.Bulk
 
@@ -49,6 +59,112 @@ def fmtLbl (p : Int × Int) : String := s!"{p.1}.{p.2}"
 def pairsOfInts : List Int → List (Int × Int)
   | a :: b :: r => (a, b) :: pairsOfInts r
   | _ => []
+
+/-! token parsers: consume a prefix of the word list -/
+
+def pInt : List String → Option (Int × List String)
+  | w :: r => w.toInt?.map (·, r)
+  | [] => none
+
+def pOInt : List String → Option (Option Int × List String)
+  | "-" :: r => some (none, r)
+  | w :: r => w.toInt?.map (fun n => (some n, r))
+  | [] => none
+
+def pMany {α : Type} (p : List String → Option (α × List String)) : Nat → List String → Option (List α × List String)
+  | 0, ws => some ([], ws)
+  | n + 1, ws => match p ws with
+      | some (a, r) => (pMany p n r).map fun (l, r') => (a :: l, r')
+      | none => none
+
+def pArg {α : Type} (p : List String → Option (α × List String)) : List String → Option (VArg α × List String)
+  | "s" :: r => (p r).map fun (a, r') => (.scalar a, r')
+  | "v" :: k :: r => match k.toNat? with
+      | some k => (pMany p k r).map fun (l, r') => (.vec l, r')
+      | none => none
+  | _ => none
+
+def pHex : List String → Option (Txt × List String)
+  | w :: r => some (ofHex w, r)
+  | [] => none
+
+def pXyz : List String → Option ((Txt × Txt × Txt) × List String)
+  | a :: b :: c :: r => some ((ofHex a, ofHex b, ofHex c), r)
+  | _ => none
+
+def pCord : List String → Option (CordIn × List String)
+  | nm :: cid :: ref :: r => match cid.toInt?, ref.toInt?, pMany pHex 9 r with
+      | some c, some f, some (abc, r') => some ({ name := ofHex nm, cid := c, ref := f, abc := abc }, r')
+      | _, _, _ => none
+  | _ => none
+
+def pCount {α : Type} (p : List String → Option (α × List String)) : List String → Option (List α × List String)
+  | k :: r => match k.toNat? with
+      | some k => pMany p k r
+      | none => none
+  | [] => none
+
+partial def pArgs (ws : List String) : Option (List (VArg Int)) :=
+  if ws.isEmpty then some [] else
+  match pArg pInt ws with
+  | some (a, r) => (pArgs r).map (a :: ·)
+  | none => none
+
+def fmtRes (r : WRes (List Txt)) : String :=
+  match r with
+  | .ok ls => fileHex ls
+  | .valueError => "error:ValueError"
+  | .indexError => "error:IndexError"
+
+def fmtRows (rows : List (List Val)) : String := ";".intercalate (rows.map fmtCard)
+
+def answerGrid (ws : List String) : Option String :=
+  match ws with
+  | "grids" :: w :: "I" :: r => do
+      let (ids, r) ← pArg pInt r
+      let r ← (match r with | "C" :: r => some r | _ => none)
+      let (cp, r) ← pArg pInt r
+      let r ← (match r with | "X" :: r => some r | _ => none)
+      let (xyz, r) ← pCount pXyz r
+      let r ← (match r with | "D" :: r => some r | _ => none)
+      let (cd, r) ← pArg pInt r
+      let r ← (match r with | "P" :: r => some r | _ => none)
+      let (ps, r) ← pArg pOInt r
+      let r ← (match r with | "S" :: r => some r | _ => none)
+      let (seid, _) ← pArg pOInt r
+      let idl := match ids with | .vec l => l | .scalar a => [a]
+      some (fmtRes (gridLines { ids := idl, cp := cp, xyz := xyz, cd := cd, ps := ps, seid := seid, wide := w == "1" }))
+  | "cords" :: r => do
+      let (cs, _) ← pCount pCord r
+      some (fileHex (cordLines cs))
+  | "uset" :: r => do
+      let (cs, r) ← pCount pCord r
+      let r ← (match r with | "I" :: r => some r | _ => none)
+      let (ids, r) ← pArg pInt r
+      let r ← (match r with | "X" :: r => some r | _ => none)
+      let (xyz, r) ← pCount pXyz r
+      let r ← (match r with | "D" :: r => some r | _ => none)
+      let (cd, _) ← pArg pInt r
+      let idl := match ids with | .vec l => l | .scalar a => [a]
+      let cdl := match cd with | .vec l => l | .scalar a => [a]
+      some (fmtRes (usetLines cs idl xyz cdl))
+  | "vecw" :: r => do
+      let args ← pArgs r
+      match vecRows args with
+      | .ok rows => some (fileHex (rows.map fun row => (" ".intercalate (row.map toString)).toList))
+      | .valueError => some "error:ValueError"
+      | .indexError => some "error:IndexError"
+  | ["rdgrids", t] => some (match rdGrids (linesOf t) with
+      | .none => "none"
+      | .indexError => "error:IndexError"
+      | .rows rs => fmtRows rs)
+  | ["rdcord2", t] => some (match rdCord2 (linesOf t) with
+      | none => "error"
+      | some rs => fmtRows rs)
+  | ["rdcardsk", t] =>
+      let cs := rdcardsBy cord2Match true (linesOf t)
+      some (if cs.isEmpty then "none" else fmtRows cs)
+  | _ => none
 
 def answer (line : String) : String :=
   match (line.splitOn " ").filter (· ≠ "") with
@@ -117,10 +233,9 @@ def answer (line : String) : String :=
       | some ds => ";".intercalate (ds.map fun d =>
           toHex d.name ++ "|" ++ fmtVal d.form ++ "|" ++ fmtVal d.mtype ++ "|" ++
           " ".intercalate (d.rows.map fmtLbl) ++ "|" ++ " ".intercalate (d.cols.map fmtLbl) ++ "|" ++
-          " ".intercalate (d.assign.map fun (r, c, x, y) =>
-            fmtLbl r ++ "@" ++ fmtLbl c ++ "@" ++ fmtVal x ++ "@" ++ fmtVal y))
+          "/".intercalate (d.frame.map fun row => " ".intercalate (row.map fun (x, y) => fmtVal x ++ "@" ++ fmtVal y)))
       | none => "error"
-  | _ => "bad-op"
+  | ws => (answerGrid ws).getD "bad-op"
 
 partial def loop (h : IO.FS.Stream) (out : IO.FS.Stream) : IO Unit := do
   let line ← h.getLine
